@@ -6,7 +6,8 @@ package main
 // every pre-state reachable by <= 1 (quick) / <= 2 (thorough) mutators, on every
 // file-system type. Oracle: the call returns - no PANIC, no decided DEADLOCK
 // (shim in sequential mode), no HANG (worker makes no progress while burning
-// CPU), no FATAL runtime error - except File.Name on a nil handle.
+// CPU), no FATAL runtime error - except File.Name on a nil handle - and so do
+// the ordinary calls made after it on the same instance (seq_aftermath.go).
 //
 // Entry points: runSeq (hook of concfs.Main) and maybeSeqOnly (first statement
 // of main: serves the -seqonly, -seqworker and -seqcase modes and exits).
@@ -75,6 +76,7 @@ const (
 	maxRestarts   = 64
 	harnessExit   = 3
 	flushInterval = 300 * time.Millisecond
+	replayTries   = 64 // fresh instances a violating case gets to fail identically again
 )
 
 // maybeSeqOnly serves the modes of the sequential part that bypass
@@ -361,8 +363,22 @@ units:
 				continue
 			}
 
-			// replay determinism: the same case on a fresh instance must fail identically
-			if r2 := u.runCase(j); r2.Kind != r.Kind || concfs.StripDetail(r2.Msg) != concfs.StripDetail(r.Msg) {
+			// replay determinism: the same case on a fresh instance must fail
+			// identically. The library walks Go maps (RemoveAll over the children
+			// of a directory), whose order changes from run to run: which entry a
+			// refused RemoveAll stops at - hence what it leaves behind - may
+			// differ, so the case is given replayTries fresh instances to show
+			// the same failure again before the harness declares itself unreliable.
+			same := false
+
+			var r2 seqCaseRes
+
+			for try := 0; try < replayTries && !same; try++ {
+				r2 = u.runCase(j)
+				same = r2.Kind == r.Kind && concfs.StripDetail(r2.Msg) == concfs.StripDetail(r.Msg)
+			}
+
+			if !same {
 				harness(fmt.Sprintf("case %s not deterministic: %s %q then %s %q", u.caseKey(j), r.Kind, r.Msg, r2.Kind, r2.Msg))
 			}
 
@@ -1055,6 +1071,9 @@ func seqParent(tier string, deadline time.Time, withOst bool) (*seqResult, error
 			"a call is a HANG when its worker burns 20 s of CPU time (or 300 s of wall time) without finishing it; a worker killed by a fatal runtime error (stack overflow beyond 64 MiB, out of memory beyond 8 GiB of address space) is a FATAL of the case it had announced",
 			"every case runs on a fresh instance: constructor, harness tree (dir /a, file /a/f \"xy\", dir /a/d; MemFS: symlink /a/s -> f, loop /a/l -> l; BasePathFS base /b with /b/f), then the mutators of the pre-state",
 			"temporary names use the deterministic colliding supplier 0,0,1,1,... of the shim",
+			followUpAssumption,
+			"pre-state nonadmin-in-foreign-sticky-dir (round 10): /a 0777, /a/d 1777 of the administrator holding /a/d/o of a third user u3 (of the administrator where the identity manager cannot add users), current user usr: refusals met inside a recursive removal (sticky rule) instead of at the first permission test",
+			"a violating case is re-executed on fresh instances (at most 64) until it fails identically again: the library iterates over Go maps, so what a refused RemoveAll leaves behind may differ between runs",
 			"sizes above 1 MiB are excluded for Truncate/WriteAt (an in-memory file system legitimately needs that memory); 1<<40 and MaxInt64 are used for Seek and ReadAt only",
 		},
 	}
